@@ -866,7 +866,8 @@ pub fn same_key(a: &Node, b: &Node) -> bool {
     // node, which the parser reports as `~` when it has no properties - the same (null) key
     fn text(n: &Node) -> Option<&str> {
         match &n.kind {
-            Kind::Scalar { value, style: Style::Plain } if value.is_empty() && (n.anchor.is_some() || n.tag.is_some()) => Some("~"),
+            // (with a tag - `!!str` followed by nothing - it is that tag's empty value, not null)
+            Kind::Scalar { value, style: Style::Plain } if value.is_empty() && n.anchor.is_some() && n.tag.is_none() => Some("~"),
             Kind::Scalar { value, .. } => Some(value),
             _ => None,
         }
